@@ -152,6 +152,16 @@ def borrowed_and_name_cases(ctx):
             return False
         return True
     n += H.warnings_as_errors_cases(ctx, wjudge)
+    # extended properties that were unpickled from an earlier release's layout
+
+    def ljudge(info, obj, before, o, after):
+        if o[0] == "err" and after != before:
+            diff = [k for k in set(before) | set(after) if before.get(k) != after.get(k)]
+            ctx.violation(what="a call raised after it had changed the object (extended properties unpickled from an earlier release)", error=show(o)[:160], changed=str(diff),
+                          observed=str({k: after.get(k) for k in diff})[:300], required=str({k: before.get(k) for k in diff})[:300], **info)
+            return False
+        return True
+    n += H.legacy_dictionary_cases(ctx, ljudge)
     n += H.narrow_scalar_cases(ctx, lambda info, obs, req: ctx.violation(what="a call with narrow NumPy integer scalars differs from the call with the same Python ints", observed=obs, required=req, **info))
     # sources carrying property values of unusual types (whatever a caller put into the mapping): the append either stores them or
     # refuses them, but never half-way
